@@ -1,19 +1,60 @@
 /-
   C20 line-protocol driver (same requests as harness/c20_smallvec.cc):
-    new <int|double|string|tracked> <S>
+    new <int|double|string|tracked|pod> <S>
     <r> ctorN n | ctorNX n id | ctorList k id… | ctorCopy | ctorMove | assignCopy | assignMove
         | assignSelf | clear | pushBack v id | pushBack s i | emplaceBack v id | emplaceBack s i
-        | insert pos k id… | resize n | reserve n | setAt i id | getAt i | cmpEq | cmpLt
+        | emplaceBack a<k> id (k-argument constructor form, k = 0..3)
+        | insert pos k id… | insertL pos k id… (list iterators) | resize n | reserve n
+        | setAt i id | getAt i | cmp <eq|ne|lt|gt|le|ge> | cmpEq | cmpLt
+        | cmpMixed <S2 in 1,4,8> <eq|…|ge> <flip 0|1>
+        | front | back | setFront id | setBack id | dataAt i | setData i id | iterFwd | iterRev
+        | empty | size | capOk | maxSize
     end
   answers:  ok <obs> | <reg0> | <reg1>     with <reg> = S size cap e0,e1,…  or  U size cap
             fault <kind>   (then `dead` until the next `new`)   precond   bad-op
             end ok | end fault <kind>
   Elements: ids; R = raw slot, M = moved-from object inside [0, size).
+
+  The element VALUE CLASS: an id names a representation; the element type supplies `==` and `<`
+  on it (`tyEq`, `tyLt`), which are NOT the identity / order of ids:
+    double  90000001 = -0.0 (== +0.0 = id 0), 90000002 / 90000003 = two NaNs (unordered, != itself),
+            90000004 = +inf, 90000005 = -inf, 90000006 = -1.0, 90000007 = denorm_min, 90000008 = -2.0
+    pod     id = aux * 1000000 + key: `operator==` and `operator<` look at `key` only
 -/
 import Vita.C20.Model
 open Vita.C20
 
+/-- `none` = NaN; otherwise an integer that orders the `double`s an id can denote -/
+def dRank (id : Nat) : Option Int :=
+  if id == 90000002 || id == 90000003 then none
+  else if id == 90000001 then some 0
+  else if id == 90000004 then some 1000000000000
+  else if id == 90000005 then some (-1000000000000)
+  else if id == 90000006 then some (-2)
+  else if id == 90000007 then some 1
+  else if id == 90000008 then some (-4)
+  else some (2 * (id : Int))
+
+/-- `T::operator==` on ids -/
+def tyEq (ty : String) (a b : Nat) : Bool :=
+  if ty == "double" then
+    match dRank a, dRank b with
+    | some x, some y => x == y
+    | _, _ => false
+  else if ty == "pod" then a % 1000000 == b % 1000000
+  else a == b
+
+/-- `T::operator<` on ids -/
+def tyLt (ty : String) (a b : Nat) : Bool :=
+  if ty == "double" then
+    match dRank a, dRank b with
+    | some x, some y => decide (x < y)
+    | _, _ => false
+  else if ty == "pod" then decide (a % 1000000 < b % 1000000)
+  else decide (a < b)
+
 structure Session where
+  ty : String
   cfg : Cfg Nat
   m : Mach Nat
   spec0 : Bool
@@ -38,6 +79,10 @@ def faultName : Fault → String
   | .constructOverAlive => "constructOverAlive" | .destroyRaw => "destroyRaw" | .oob => "oob"
   | .freeAlive => "freeAlive" | .danglingRef => "danglingRef" | .precond => "precond"
 
+def cmpOf : String → Option Cmp
+  | "eq" => some .eq | "ne" => some .ne | "lt" => some .lt | "gt" => some .gt | "le" => some .le
+  | "ge" => some .ge | _ => none
+
 def nums (ts : List String) : Option (List Nat) :=
   ts.mapM (fun t => if t.length ≤ 9 then t.toNat? else none)
 
@@ -58,8 +103,23 @@ def parseOp (ss : Session) (r : Bool) (name : String) (args : List String) : Req
       else if k == "s" then
         needX (if v < x.size then .op r (if name == "pushBack" then .pushBack (.self v) else .emplaceBack (.self v)) sx sy
                else .precond)
+      else if name == "emplaceBack" && (k == "a0" || k == "a1" || k == "a2" || k == "a3") then
+        -- T(args…) with k constructor arguments denotes the element `v`
+        if (ss.ty == "int" || ss.ty == "double") && (k == "a2" || k == "a3") then .bad
+        else if k == "a0" && v != 0 then .bad
+        else needX (.op r (.emplaceBack (.val v)) sx sy)
       else .bad
     | _ => .bad
+  | "cmp", [k] =>
+    match cmpOf k with
+    | some c => needX (if sy then .op r (.cmp c) sx sy else .precond)
+    | none => .bad
+  | "cmpMixed", [s2, k, f] =>
+    match cmpOf k, nums [s2, f] with
+    | some c, some [n, fl] =>
+      if (n != 1 && n != 4 && n != 8) || fl > 1 then .bad
+      else needX (if sy then .op r (.cmpMixed n c (fl == 1)) sx sy else .precond)
+    | _, _ => .bad
   | _, _ =>
     match nums args with
     | none => .bad
@@ -75,22 +135,34 @@ def parseOp (ss : Session) (r : Bool) (name : String) (args : List String) : Req
       | "assignMove", [] => if sy then .op r .assignMove true false else .precond
       | "assignSelf", [] => .op r .assignSelf sx sy
       | "clear", [] => .op r .clear true sy
-      | "insert", pos :: k :: vs =>
+      | "insert", pos :: k :: vs | "insertL", pos :: k :: vs =>
         if vs.length != k then .bad else needX (if pos ≤ x.size then .op r (.insert pos vs) sx sy else .precond)
       | "resize", [n] => needX (if n > 64 then .precond else .op r (.resize n) sx sy)
       | "reserve", [n] => needX (if n > 64 then .precond else .op r (.reserve n) sx sy)
       | "setAt", [i, v] => needX (if i < x.size then .op r (.setAt i v) sx sy else .precond)
       | "getAt", [i] => needX (if i < x.size then .op r (.getAt i) sx sy else .precond)
-      | "cmpEq", [] => needX (if sy then .op r .cmpEq sx sy else .precond)
-      | "cmpLt", [] => needX (if sy then .op r .cmpLt sx sy else .precond)
+      | "cmpEq", [] => needX (if sy then .op r (.cmp .eq) sx sy else .precond)
+      | "cmpLt", [] => needX (if sy then .op r (.cmp .lt) sx sy else .precond)
+      | "front", [] => needX (if 0 < x.size then .op r .front sx sy else .precond)
+      | "back", [] => needX (if 0 < x.size then .op r .back sx sy else .precond)
+      | "setFront", [v] => needX (if 0 < x.size then .op r (.setFront v) sx sy else .precond)
+      | "setBack", [v] => needX (if 0 < x.size then .op r (.setBack v) sx sy else .precond)
+      | "dataAt", [i] => needX (if i < x.size then .op r (.dataAt i) sx sy else .precond)
+      | "setData", [i, v] => needX (if i < x.size then .op r (.setData i v) sx sy else .precond)
+      | "iterFwd", [] => needX (.op r .iterFwd sx sy)
+      | "iterRev", [] => needX (.op r .iterRev sx sy)
+      | "empty", [] => needX (.op r .empty sx sy)
+      | "size", [] => needX (.op r .size sx sy)
+      | "capOk", [] => needX (.op r .capOk sx sy)
+      | "maxSize", [] => .op r .maxSize sx sy
       | _, _ => .bad
 
-def showObs (op : Op Nat) : Obs Nat → String
-  | .none => match op with
-    | .insert pos _ => toString pos
-    | _ => "-"
+def showObs : Obs Nat → String
+  | .none => "-"
   | .val v => toString v
   | .bool b => if b then "1" else "0"
+  | .nat n => toString n
+  | .list l => if l.isEmpty then "-" else ",".intercalate (l.map toString)
 
 def handle (st : Option Session) (line : String) : Option Session × String :=
   match line.trimAscii.toString.splitOn " " |>.filter (· ≠ "") with
@@ -99,13 +171,13 @@ def handle (st : Option Session) (line : String) : Option Session × String :=
     | some [n] =>
       if n < 1 || n > 8 then (none, "bad-op") else
       let triv? : Option Bool :=
-        if ty == "int" || ty == "double" then some true
+        if ty == "int" || ty == "double" || ty == "pod" then some true
         else if ty == "string" || ty == "tracked" then some false else none
       match triv? with
       | none => (none, "bad-op")
       | some t =>
         let c : Cfg Nat := { S := n, trivial := t, growth := growthPolicy, dflt := 0 }
-        (some { cfg := c, m := Mach.init c, spec0 := true, spec1 := true, dead := false }, "ok new")
+        (some { ty := ty, cfg := c, m := Mach.init c, spec0 := true, spec1 := true, dead := false }, "ok new")
     | _ => (none, "bad-op")
   | ["end"] =>
     match st with
@@ -126,13 +198,13 @@ def handle (st : Option Session) (line : String) : Option Session × String :=
       | .bad => (st, "bad-op")
       | .precond => (st, "precond")
       | .op _ o sx sy =>
-        match step ss.cfg (fun a b => decide (a < b)) ss.m rb o with
+        match step ss.cfg (tyEq ss.ty) (tyLt ss.ty) ss.m rb o with
         | .error e => (some { ss with dead := true }, "fault " ++ faultName e)
         | .ok (m', obs) =>
           let s0 := if rb then sy else sx
           let s1 := if rb then sx else sy
           (some { ss with m := m', spec0 := s0, spec1 := s1 },
-           "ok " ++ showObs o obs ++ " | " ++ showReg ss.cfg m'.a s0 ++ " | " ++ showReg ss.cfg m'.b s1)
+           "ok " ++ showObs obs ++ " | " ++ showReg ss.cfg m'.a s0 ++ " | " ++ showReg ss.cfg m'.b s1)
   | _ => (st, "bad-op")
 
 partial def loop (h : IO.FS.Stream) (out : IO.FS.Stream) (st : Option Session) : IO Unit := do
